@@ -192,7 +192,9 @@ func DrawConfig(r *rng.R, p Profile, thorough bool) *Config {
 	c.BigNumbers = r.P(0.1)
 	if c.BigNumbers {
 		// var values and literals around the 8- and 16-bit boundaries
-		all := []int{0, 1, 2, 9, 10, 99, 100, 127, 128, 255, 256, 257, 1000, 32767, 32768, 65535, 65536, 65537, 70000}
+		// (not 0x4000-0x40FF / 0x8000-0x8015: a literal there is read as a variable by `compare`
+		// and `case`, so two case lines could match at once and their order would matter)
+		all := []int{0, 1, 2, 9, 10, 99, 100, 127, 128, 255, 256, 257, 1000, 32767, 32790, 65535, 65536, 65537, 70000}
 		pm := r.Perm(len(all))
 		k := r.Range(3, 8)
 		for i := 0; i < k; i++ {
